@@ -25,7 +25,8 @@ def rec_program(frame, kind, thread, bounded):
     thread: main | spawned | nested_spawned
     bounded: recursion stops at depth 200 (the program must then finish normally)"""
     decls = []
-    limit = "if n > 200 { return n; }" if bounded else "if n < 0 { return n; }"
+    # LIM < 0: unbounded recursion; with a command-line argument the same program stops at depth 200
+    limit = "if LIM >= 0 && n > LIM { return n; }"
     ftype, k = frame
     if ftype == "locals":
         pre = "\n".join("  let v%d = n + %d;" % (i, i) for i in range(k))
@@ -77,12 +78,14 @@ def rec_program(frame, kind, thread, bounded):
         body = ("  let b = Box(f = |x: Int64|: Int64 { x });\n  b.f = |x: Int64|: Int64 { rec(b, x) };\n  let r = rec(b, 0);\n  println(\"done ${r > 0}\");")
     else:
         body = "  let r = %s;\n  println(\"done ${r > 0}\");" % start
+    pre_main = "  if std::argc() > 0i32 { LIM = std::argv(0i32).to_int64().get_or_panic(); }\n"
+    decls.insert(0, "let mut LIM: Int64 = -1;")
     if thread == "main":
-        main = "fn main() {\n  println(\"start\");\n%s\n}" % body
+        main = "fn main() {\n" + pre_main + "  println(\"start\");\n%s\n}" % body
     elif thread == "spawned":
-        main = "fn main() {\n  println(\"start\");\n  let t = std::thread::spawn(|| {\n%s\n  });\n  t.join();\n}" % body
+        main = "fn main() {\n" + pre_main + "  println(\"start\");\n  let t = std::thread::spawn(|| {\n%s\n  });\n  t.join();\n}" % body
     else:
-        main = ("fn main() {\n  println(\"start\");\n  let t = std::thread::spawn(|| {\n    let t2 = std::thread::spawn(|| {\n%s\n    });\n    t2.join();\n  });\n  t.join();\n}" % body)
+        main = ("fn main() {\n" + pre_main + "  println(\"start\");\n  let t = std::thread::spawn(|| {\n    let t2 = std::thread::spawn(|| {\n%s\n    });\n    t2.join();\n  });\n  t.join();\n}" % body)
     return "\n".join(decls) + "\n" + main + "\n"
 
 
@@ -100,8 +103,7 @@ def recursion_cases(quick=True):
         if src is None:
             continue
         name = "rec:%s%d:%s:%s" % (fr[0], fr[1], kd, th)
-        out.append({"name": name, "src": src, "expect": "stack", "frame": fr, "kind": kd, "thread": th,
-                    "bounded_src": rec_program(fr, kd, th, bounded=True)})
+        out.append({"name": name, "src": src, "expect": "stack", "frame": fr, "kind": kd, "thread": th})
     return out
 
 
